@@ -50,7 +50,8 @@ Inductive qop :=
 | QUnsub (a : nat) (k : nat)                         (* the k-th subscription ever returned (either node), 1-based *)
 | QPubN (p : qpub) (t : topic) (v : Z) (n : nat)
 | QRestart (a : nat) (w : option topic) (ls : list topic)
-| QTerm (a : nat) (g : bool) (w : option topic).
+| QTerm (a : nat) (g : bool) (w : option topic)
+| QPubL (p : qpub) (t : topic) (v : Z).              (* a publication that is NOT a network message (the codec cannot encode it) *)
 
 Inductive qout :=
 | QOut (ids : list nat) (dl : list (nat * topic * Z * qref))   (* recipient, topic carried by the payload, value, sender *)
@@ -88,6 +89,12 @@ Definition q_release (s : qstate) (a : nat) : qstate :=
    ORIGINAL publisher as sender: one user message per subscription of the topic on either node *)
 Definition q_deliver (s : qstate) (p : qref) (t : topic) (v : Z) : list (nat * topic * Z * qref) :=
   map (fun x => (q_who x, t, v, p)) (filter (fun x => (q_topic x =? t) && qalive s (q_who x)) (qtab s)).
+
+(* a publication the codec cannot encode is not broadcast: onLocalPublishRequest still fans it out on the publisher's node *)
+Definition qpub_node (p : qpub) : nat := match p with QSys n => n | QAct a => node_of a end.
+Definition q_deliver_local (s : qstate) (p : qpub) (t : topic) (v : Z) : list (nat * topic * Z * qref) :=
+  map (fun x => (q_who x, t, v, qref_of p))
+      (filter (fun x => (q_topic x =? t) && (q_node x =? qpub_node p) && qalive s (q_who x)) (qtab s)).
 
 Definition q_group (l : list (nat * topic * Z * qref)) : list (nat * topic * Z * qref) :=
   flat_map (fun a => filter (fun d => let '(to, _, _, _) := d in to =? a) l) (seq 0 nactors).
@@ -131,6 +138,8 @@ Definition q_step (s : qstate) (o : qop) : qstate * qout :=
         let s2 := q_release s1 a in
         ({| qtab := qtab s2; qguid := qguid s2; qalive := fupd (qalive s2) a false; qlocal := qlocal s2; qissued := qissued s2 |}, QOut i1 [])
       else (s, QSkip)
+  | QPubL p t v =>
+      if q_can_send s p then (s, QOut [] (q_group (q_deliver_local s p t v))) else (s, QSkip)
   end.
 
 Fixpoint q_run (s : qstate) (ops : list qop) : qstate * list qout :=
